@@ -26,6 +26,13 @@ CHECKS = [
              "known finding C12-H excluded by its witness class",
      "not_covered": ["that the optimiser honours its bounds", "base load within the observed usage range beyond the quantile box", "behaviour of the fit on data"],
      },
+    {"id": "C16", "level": "proof", "modules": ["contracts.C16_metrics"], "bounded": ["bounded.C16_metrics"],
+     "technique": "deductive verification: sidecar contracts on the real source, VCs by symbolic execution (pyvc) over abstract aggregates, z3",
+     "text": "Every computed field of BaselineMetrics / ReportingMetrics equals the textbook formula over abstract aggregates of the "
+             "finite rows (for all n, parameter counts and aggregate values), _safe_divide and both poor-fit gates are verified in iff form.",
+     "note": "pandas aggregates (sum, var, quantile, autocorr, corr) are assumed contracts; floats as reals; known finding C16-safe-divide",
+     "not_covered": ["numerical accuracy of pandas' var/autocorr/corr", "that X_predict equals what a later predict(baseline) rebuilds (needs a fit)"],
+     },
 ]
 _NOT_BUILT = "machinery for this property is not built yet (see DESIGN.md §7 build order); not claimed"
 NOT_APPLICABLE = [{"property_id": f"C{n:02d}", "reason": _NOT_BUILT} for n in range(1, 21) if n != 15 and f"C{n:02d}" not in {c["id"] for c in CHECKS}] + [
